@@ -341,8 +341,11 @@ var topRules = []topRule{
 	{name: "type-shadow-ends-with-its-block", good: "fn main() { type Id = int; { type Id = str; let b: Id = \"s\"; println(b); } let a: Id = 1; println(a); }\n", bad: "fn main() { type Id = int; { type Id = str; let b: Id = \"s\"; println(b); } let a: Id = \"t\"; println(a); }\n"},
 	{name: "type-shadowed-object-type", good: "type P = { x: int };\nfn f() -> int { type P = { y: int }; let p: P = new { y: 1 }; p.y }\nfn main() { let q: P = new { x: 2 }; println(f(), q.x); }\n", bad: "type P = { x: int };\nfn f() -> int { type P = { y: int }; let p: P = new { x: 1 }; 1 }\nfn main() { let q: P = new { x: 2 }; println(f(), q.x); }\n"},
 	// a bare `none` fits every option type; it must not make the branches that follow it fit each other
-	// (not claimed: a list literal / try whose FIRST element / block is a bare none has the type of that none and
-	// needs an annotation, which is then validated at run time - the analyzer's implicit-any rule, not a leak)
+	// (not claimed: a `try` whose block is a bare none has the type of that none and needs an annotation, which is
+	// then validated at run time - the analyzer's implicit-any rule, not a leak)
+	{name: "list-elements-after-none-element", good: "fn main() { let l: [?int] = [none, ?1, ?2]; println(l); }\n", bad: "fn main() { let l: [?int] = [none, ?1, ?\"s\"]; println(l); }\n"},
+	{name: "list-elements-after-diverging-element", good: "fn f(c: bool) -> [int] { [if c { throw(\"x\") } else { 0 }, 1, 2] }\nfn main() { println(f(false)); }\n", bad: "fn f(c: bool) -> [int] { [throw(\"x\"), 1, \"a\"] }\nfn main() { println(f(false)); }\n"},
+	{name: "list-elements-after-two-none-elements", good: "fn main() { let l: [?str] = [none, none, ?\"s\", ?\"t\"]; println(l); }\n", bad: "fn main() { let l: [?str] = [none, none, ?\"s\", ?1]; println(l); }\n"},
 	{name: "match-arms-after-none-arm", good: "fn f(c: int) -> ?int { match c { 0 => none, 1 => ?1, _ => ?2 } }\nfn main() { println(f(1)); }\n", bad: "fn f(c: int) -> ?int { match c { 0 => none, 1 => ?1, _ => ?\"s\" } }\nfn main() { println(f(1)); }\n"},
 	{name: "match-arms-after-two-none-arms", good: "fn f(c: int) -> ?int { match c { 0 => none, 1 => none, 2 => ?1, _ => ?2 } }\nfn main() { println(f(1)); }\n", bad: "fn f(c: int) -> ?int { match c { 0 => none, 1 => none, 2 => ?1, _ => ?true } }\nfn main() { println(f(1)); }\n"},
 	{name: "match-let-after-none-arm", good: "fn main() { let v = match 1 { 0 => none, 1 => ?1, _ => ?2 }; println(v); }\n", bad: "fn main() { let v = match 1 { 0 => none, 1 => ?1, _ => ?[1] }; println(v); }\n"},
